@@ -447,7 +447,7 @@ def _equal_or_same(a, b):
 
 def _df_elements(df):
     """Yields all the values in the data frame serially."""
-    return (x for row in df.itertuples() for x in row)
+    return (x for row in df.itertuples(name=None) for x in row)
 
 
 def _df_elements_all_equal_or_same(df1, df2):
